@@ -657,6 +657,9 @@ var c18Cache = map[string]*c18Result{}
 var c18Times = map[string][]int64{}
 
 func c18Run(c *Case) (string, []Fail) {
+	if c.Kind == 2 {
+		return c18RunBacklogCase(c) // backlog at the stop: c18_backlog.go
+	}
 	if c.Kind != 1 || len(c.Z) < 20 {
 		return "badcase", nil
 	}
@@ -721,6 +724,10 @@ func c18Gen(g *Gen) {
 				fmt.Fprintf(os.Stderr, "c18 %-34s elapsed %5d ms fails %d %s\n", sc.Name, res.ElapsedMs, len(res.Fails), res.Note)
 			}
 		}
+	}
+	// ---- backlog at the stop request (see c18_backlog.go) ----
+	if os.Getenv("C18_ONLY") == "" || os.Getenv("C18_ONLY") == "backlog" {
+		c18GenBacklog(g)
 	}
 	for name, ts := range c18Times {
 		var max int64
